@@ -138,17 +138,20 @@ class add_callbacks:
 
     def __init__(self, *callbacks):
         self.callbacks = [normalize_callback(c) for c in callbacks]
-        # Only what this context activates is deactivated again when it is
-        # left: callbacks that an enclosing context or an earlier
-        # ``register()`` made active stay active.
-        self._added = [
-            c for c in dict.fromkeys(self.callbacks) if c not in Callback.active
-        ]
-        Callback.active.update(self.callbacks)
+        # one entry per ``__enter__``: the callbacks that entry activated
+        self._added = []
 
     def __enter__(self):
-        return
+        # Only what this entry activates is deactivated again when it is
+        # left: callbacks that an enclosing context or an earlier
+        # ``register()`` made active stay active.  This is decided when the
+        # context is entered, not when the object is built: the object may be
+        # entered later, or several times.
+        self._added.append(
+            [c for c in dict.fromkeys(self.callbacks) if c not in Callback.active]
+        )
+        Callback.active.update(self.callbacks)
 
     def __exit__(self, type, value, traceback):
-        for c in self._added:
+        for c in self._added.pop():
             Callback.active.discard(c)
